@@ -42,3 +42,42 @@ MUTANTS += [
          new='\tif (leader_index == node_index || leader_index + 1 == node_index) {\n\t\treturn node_index;\n\t}'),
     dict(id='c02-offset-dist-7bits', props=['C02'], file='lib/lh1_decoder.c', old='\t24,   // 7 bits\n\t16,   // 8 bits', new='\t23,   // 7 bits\n\t18,   // 8 bits'),
 ]
+MUTANTS += [
+    # ---- C04 ----
+    dict(id='c04-pm2-second-rebuild-2048', props=['C04'], file='lib/pm2_decoder.c',
+         old='\t\t\tread_offset_tree(decoder, 6);\n\t\t\tdecoder->tree_state = PM2_REBUILD_BUILD2;\n\t\t\tdecoder->tree_rebuild_remaining = 1024;',
+         new='\t\t\tread_offset_tree(decoder, 6);\n\t\t\tdecoder->tree_state = PM2_REBUILD_BUILD2;\n\t\t\tdecoder->tree_rebuild_remaining = 2048;'),
+    dict(id='c04-pm2-no-mtf-on-copy', props=['C04'], file='lib/pm2_decoder.c',
+         old='\t\toutput_byte(decoder, buf, buf_len, decoder->ringbuf[pos]);',
+         new='\t\t{ uint8_t hh = decoder->history_list.history_head; HistoryLinkedList sv = decoder->history_list; output_byte(decoder, buf, buf_len, decoder->ringbuf[pos]); if (decoder->tree_rebuild_remaining != 4096 || 1) { decoder->history_list = sv; (void) hh; } }'),
+    dict(id='c04-pm1-threshold-832', props=['C04'], file='lib/pm1_decoder.c',
+         old='if (decoder->output_stream_pos < 832) {', new='if (decoder->output_stream_pos < 1088) {'),
+    dict(id='c04-pm1-threshold-6720', props=['C04'], file='lib/pm1_decoder.c',
+         old='} else if (decoder->output_stream_pos < 6720) {', new='} else if (decoder->output_stream_pos <= 6720) {'),
+    dict(id='c04-pm1-no-zero-fill', props=['C04'], file='lib/pm1_decoder.c',
+         old='\tif (result == 0) {\n\t\tmemset(buf, 0, buf_len);\n\t\tresult = buf_len;\n\t}', new='\tif (result == 0) {\n\t\tmemset(buf, 0xff, buf_len);\n\t\tresult = buf_len;\n\t}'),
+    dict(id='c04-pm2-copy-256-base', props=['C04'], file='lib/pm2_decoder.c', old='\t{ 256, 0 },   // 256 (unique value)', new='\t{ 255, 0 },   // 256 (unique value)'),
+    dict(id='c04-pm-mtf-start-order', props=['C04'], file='lib/pma_common.c',
+         old='\tlist->history[0x1f].prev = 0xa0;  // 0x00 ... 0x1f -> 0xa0\n\tlist->history[0xa0].next = 0x1f;\n\n\tlist->history[0xdf].prev = 0x80;  // 0xa0 ... 0xdf -> 0x80\n\tlist->history[0x80].next = 0xdf;\n\n\tlist->history[0x9f].prev = 0xe0;  // 0x80 ... 0x9f -> 0xe0\n\tlist->history[0xe0].next = 0x9f;',
+         new='\tlist->history[0x1f].prev = 0x80;\n\tlist->history[0x80].next = 0x1f;\n\n\tlist->history[0xdf].prev = 0xe0;\n\tlist->history[0xe0].next = 0xdf;\n\n\tlist->history[0x9f].prev = 0xa0;\n\tlist->history[0xa0].next = 0x9f;'),
+    dict(id='c04-pm1-tree12-leaf', props=['C04'], file='lib/pm1_decoder.c',
+         old='{ 0xa1, 0x12, 0xb2, 0xde, 0xcf },    // (a ((b (c f)) (d e)))', new='{ 0xa1, 0x12, 0xb2, 0xde, 0xfc },    // (a ((b (c f)) (d e)))'),
+]
+MUTANTS += [
+    # ---- C14 ----
+    dict(id='c14-crc-over-outbuf', props=['C14'], file='lib/lha_decoder.c',
+         old='\tlha_crc16_buf(&decoder->crc, buf, filled);', new='\tlha_crc16_buf(&decoder->crc, decoder->outbuf, filled < decoder->outbuf_len ? filled : decoder->outbuf_len);'),
+    dict(id='c14-end-clamp-dropped', props=['C14'], file='lib/lha_decoder.c',
+         old='\tif (decoder->stream_pos + buf_len > decoder->stream_length) {\n\t\tbuf_len = decoder->stream_length - decoder->stream_pos;\n\t}',
+         new='\tif (decoder->stream_pos + buf_len > decoder->stream_length + 1) {\n\t\tbuf_len = decoder->stream_length - decoder->stream_pos;\n\t}'),
+    dict(id='c14-progress-off-by-one', props=['C14'], file='lib/lha_decoder.c',
+         old='\tblock = (decoder->stream_pos + decoder->dtype->block_size - 1)\n\t      / decoder->dtype->block_size;',
+         new='\tblock = (decoder->stream_pos)\n\t      / decoder->dtype->block_size;'),
+    dict(id='c14-outbuf-pos-lost-on-small-read', props=['C14'], file='lib/lha_decoder.c',
+         old='\t\tdecoder->outbuf_pos += bytes;\n\t\tfilled += bytes;', new='\t\tdecoder->outbuf_pos += bytes + (bytes == 3 && buf_len == 3 && decoder->outbuf_len > 40);\n\t\tfilled += bytes;'),
+    dict(id='c14-length-counts-requested', props=['C14'], file='lib/lha_decoder.c',
+         old='\tdecoder->stream_pos += filled;', new='\tdecoder->stream_pos += decoder->decoder_failed ? buf_len : filled;'),
+    dict(id='c14-monitor-late-attach-skips', props=['C14'], file='lib/lha_decoder.c',
+         old='\tdecoder->total_blocks\n\t  = (decoder->stream_length + decoder->dtype->block_size - 1)\n\t  / decoder->dtype->block_size;\n',
+         new='\tdecoder->total_blocks\n\t  = (decoder->stream_length + decoder->dtype->block_size - 1)\n\t  / decoder->dtype->block_size;\n\tif (decoder->stream_pos > 0) decoder->last_block = (decoder->stream_pos - 1) / decoder->dtype->block_size;\n'),
+]
